@@ -41,6 +41,8 @@ def gen_cases(ctx):
             bv = -2.5
         if oc in (5, 6, 7, 8, 9) and rng.random() < 0.3:
             bv = a[2]
+        elif oc in (5, 6, 7, 8, 9) and rng.random() < 0.2:
+            bv = math.nextafter(a[2], rng.choice([math.inf, -math.inf]))
         if oc == 4 and a[2] != 0.0 and rng.random() < 0.25:
             bv = a[2] * rng.choice([1.0, -1.0])            # remainder at EQUAL magnitudes (quotient exactly +-1)
         b = c03.mk(rng, kind, lb, re=bv)
@@ -54,6 +56,8 @@ def gen_cases(ctx):
         f = val(rng)
         if oc == 5 and rng.random() < 0.5:
             f = a[2]
+        if oc in (5, 6, 7, 8, 9) and rng.random() < 0.3 and math.isfinite(a[2]):
+            f = math.nextafter(a[2], rng.choice([math.inf, -math.inf]))          # NEIGHBOURING floats are different numbers
         if oc == 4 and a[2] != 0.0 and rng.random() < 0.25:
             f = a[2] * rng.choice([1.0, -1.0])
         if (oc in (3, 4)) and ((side == 0 and f == 0.0) or (side == 1 and a[2] == 0.0)):
@@ -128,7 +132,8 @@ def gen_cases(ctx):
             for side in (0, 1):
                 for _ in range(8 if th else 4 * ctx.scale):
                     av = val(rng)
-                    f = av if rng.random() < 0.25 else val(rng)
+                    r_ = rng.random()
+                    f = av if r_ < 0.25 else math.nextafter(av, rng.choice([math.inf, -math.inf])) if r_ < 0.5 else val(rng)
                     a = ("f", av) if ka == "f" else c03.mk(rng, 1 if ka == "d" else 2, lay(rng), re=av)
                     cases.append(("numord", 0, oc, [13, oc, side] + dg.enc_number(a) + dg.enc_f(f),
                                   ("Number(%s) %s f64" if side == 0 else "f64 %s Number(%s)") % ((KN[ka], BIN[oc]) if side == 0 else (BIN[oc], KN[ka]))
